@@ -50,6 +50,7 @@ def anchors():
 
 
 WORDS = ['apple', 'Banana', 'cherry', 'zeta', 'x1', '42', 'Tree']
+IDX_AT = ['zeta@alpha', 'apple@Zed', 'cherry@42nd', 'tree@Apple!sub', 'banana@cherry']
 
 
 # section labels that collide with names the default template issues (or with each other once forbidden characters are replaced)
@@ -82,7 +83,8 @@ def cases(seed, tier, shard, nshards):
         use_bib = r.random() < 0.3
         prefix = fwd_refs + '\n\n' if fwd_refs else ''
         if use_index:
-            prefix += ' '.join('Ix%dz\\index{%s}' % (k, r.choice(WORDS)) for k in range(r.randint(1, 5))) + '\n\n'
+            # plain entries and sort@display entries whose two parts start with different letters
+            prefix += ' '.join('Ix%dz\\index{%s}' % (k, r.choice(WORDS + IDX_AT)) for k in range(r.randint(1, 6))) + '\n\n'
         if use_bib:
             prefix += 'Cite \\cite{zk1} and \\cite{zk2}.\n\n'
         suffix = '\n\n' + src_refs + '\n'
